@@ -35,6 +35,8 @@ impl Prop for C05 {
         vec![
             Phase::new("gprog-stress", tier.pick(1600, 60000)).min_cases(tier.pick(400, 15000)).timeouts(120, tier.pick(300, 1500)),
             Phase::new("alloc-family", tier.pick(480, 5000)).min_cases(tier.pick(100, 1200)).timeouts(180, tier.pick(300, 1500)),
+            Phase::new("host-handles", tier.pick(1500, 60_000)).min_cases(tier.pick(500, 15_000)).timeouts(120, tier.pick(300, 1500)),
+            Phase::new("host-handles-asan", tier.pick(150, 3000)).build(Build::Asan).min_cases(tier.pick(50, 800)).timeouts(300, tier.pick(300, 1500)),
             Phase::new("alloc-family-asan", tier.pick(48, 240)).build(Build::Asan).min_cases(tier.pick(20, 60)).timeouts(300, tier.pick(300, 1500)),
         ]
     }
@@ -218,6 +220,27 @@ fn short_type(t: &str) -> String {
 
 impl Worker for W {
     fn gen(&mut self, rng: &mut Rng, idx: u64) -> Option<Value> {
+        if self.phase.starts_with("host-handles") {
+            // events: eval <program of a small pool> (the host keeps the handle), drop <handle>,
+            // collect, churn (allocate and drop garbage so that freed blocks are reused)
+            let n = 6 + rng.below(14);
+            let mut events: Vec<Value> = Vec::new();
+            let mut live = 0usize;
+            for _ in 0..n {
+                match rng.below(10) {
+                    0..=4 => {
+                        events.push(json!({"ev": "eval", "prog": rng.below(HANDLE_POOL.len())}));
+                        live += 1;
+                    }
+                    5 | 6 if live > 0 => events.push(json!({"ev": "drop", "which": rng.below(64)})),
+                    7 => events.push(json!({"ev": "collect"})),
+                    _ => events.push(json!({"ev": "churn", "n": *rng.pick(&[10u64, 200, 2000])})),
+                }
+            }
+            events.push(json!({"ev": "collect"}));
+            events.push(json!({"ev": "churn", "n": 500}));
+            return Some(json!({"family": "host-handles", "events": events, "stress": *rng.pick(&[0usize, 0, 1, 5]), "key": {"family": "host-handles"}}));
+        }
         if self.phase == "gprog-stress" {
             let mut opts = GenOpts::default_ordered();
             opts.max_depth = 3 + rng.below(4) as u32;
@@ -238,6 +261,9 @@ impl Worker for W {
     }
 
     fn run(&mut self, case: &Value) -> CaseResult {
+        if case["family"] == "host-handles" {
+            return run_host_handles(case);
+        }
         let src = case["src"].as_str().unwrap();
         let family = case["family"].as_str().unwrap_or("").to_string();
         let io = case["io"].as_bool().unwrap_or(false);
@@ -396,3 +422,87 @@ impl Worker for W {
 
 #[allow(dead_code)]
 fn _unused(_: FunctionRef<fn(i64) -> i64>) {}
+
+
+/// programs whose results are built at run time (never interned literals); several of them give
+/// equal contents in distinct objects when evaluated twice
+const HANDLE_POOL: &[&str] = &[
+    "let string = import! std.string.prim\nstring.append \"ab\" \"cd\"\n",
+    "let string = import! std.string.prim\nstring.append \"held by \" \"the host\"\n",
+    "let string = import! std.string.prim\n[string.append \"x\" \"y\", string.append \"x\" \"y\"]\n",
+    "let k = 3\n{ a = [k, k #Int+ 1], b = (k, 2.5) }\n",
+    "let string = import! std.string.prim\nlet s = string.append \"p\" \"q\"\n\\x -> (x #Int+ 1, s)\n",
+    "[1.5, 2.5, 3.5]\n",
+    "let string = import! std.string.prim\nstring.append \"\" \"\"\n",
+];
+
+/// The host keeps handles to values, drops some, collects, allocates: every handle it still
+/// holds must read exactly what it read when it was created.
+fn run_host_handles(case: &Value) -> CaseResult {
+    use gluon::vm::api::{Hole, OpaqueValue};
+    let h = hash_str(&case.to_string());
+    let vm = vm_with(Settings { optimize: false, ..Settings::PLAIN });
+    let stress = case["stress"].as_u64().unwrap_or(0) as usize;
+    let mut handles: Vec<Option<(gluon::vm::thread::RootedValue<RootedThread>, String, usize)>> = Vec::new();
+    let mut r = CaseResult::ok(h, true);
+    let render_handle = |v: &gluon::vm::thread::RootedValue<RootedThread>| verif::value_shape(v.get_variant());
+    let events = case["events"].as_array().cloned().unwrap_or_default();
+    for (k, ev) in events.iter().enumerate() {
+        match ev["ev"].as_str().unwrap_or("") {
+            "eval" => {
+                let p = ev["prog"].as_u64().unwrap_or(0) as usize % HANDLE_POOL.len();
+                verif::set_gc_stress(stress);
+                let res = vm.run_expr::<OpaqueValue<RootedThread, Hole>>(&format!("c05_h{}", k), HANDLE_POOL[p]);
+                verif::set_gc_stress(0);
+                match res {
+                    Ok((v, _)) => {
+                        let rv = v.into_inner();
+                        let shape = render_handle(&rv);
+                        handles.push(Some((rv, shape, p)));
+                        r.stat("handles_created", 1);
+                    }
+                    Err(e) => return CaseResult::inconclusive(h, format!("pool program rejected: {}", e)),
+                }
+            }
+            "drop" => {
+                let alive: Vec<usize> = handles.iter().enumerate().filter(|(_, x)| x.is_some()).map(|(i, _)| i).collect();
+                if !alive.is_empty() {
+                    // prefer the youngest handles some of the time: root entries are a stack
+                    let w = ev["which"].as_u64().unwrap_or(0) as usize;
+                    let i = if w % 2 == 0 { alive[alive.len() - 1 - (w / 2) % alive.len().min(2)] } else { alive[w % alive.len()] };
+                    handles[i] = None;
+                    r.stat("handles_dropped", 1);
+                }
+            }
+            "collect" => {
+                vm.collect();
+                r.stat("host_collections", 1);
+            }
+            _ => {
+                let n = ev["n"].as_u64().unwrap_or(100);
+                let _ = run_program(&vm, &format!("c05_churn{}", k), &format!("let string = import! std.string.prim\nrec let go n acc = if n #Int< 1 then acc else go (n #Int- 1) (string.append \"zzzzzzzzzzzzzzzzzzzz\" \"yyyyyyyyyyyyyyyyyyyy\")\nin go {} \"\"\n", n));
+            }
+        }
+        // every handle still held reads what it read when it was created
+        for (i, hd) in handles.iter().enumerate() {
+            if let Some((rv, want, p)) = hd {
+                let got = render_handle(rv);
+                r.stat("handle_reads_compared", 1);
+                if &got != want {
+                    return CaseResult::violation(
+                        h,
+                        format!("after event #{} ({}) the host's handle #{} (pool program {}) reads `{}`, it read `{}` when it was created", k, ev, i, p, got.chars().take(200).collect::<String>(), want),
+                        json!({"kind": "host-handle-value-changed", "family": "host-handles"}),
+                    );
+                }
+            }
+        }
+        let o = heap_check(&vm);
+        r.stat("heap_walks", 1).stat("objects_walked", o.objects).stat("edges_checked", o.edges);
+        if let Some(d) = o.dangling.first() {
+            return CaseResult::violation(h, format!("after event #{} ({}): dangling edge {}", k, ev, d), json!({"kind": "dangling-edge", "holder": if d.starts_with("root") { "root" } else { "object" }, "target_type": short_type(d), "family": "host-handles"}));
+        }
+    }
+    r.feat("host-handles");
+    r
+}
